@@ -179,6 +179,7 @@ def compute(cur_trees, pkg="shexer"):
                 s |= set(c.methods) | set(c.attrs)
         return s
     ref_names, cur_names = all_names(ref_info), all_names(cur_info)
+    rn.ref_names = ref_names
     stable = {x for x in ref_names & cur_names} | {"." + x for x in ref_names & cur_names}
     # ---------------------------------------------------------------- class members
     votes = Counter()
@@ -322,7 +323,8 @@ def apply(cur_trees, rn):
     for (m, c), mm in rn.members.items():
         for n, o in mm.items():
             glob[n].add(o)
-    unamb = {n: next(iter(os_)) for n, os_ in glob.items() if len(os_) == 1}
+    # (a name the reference also uses for something else is never rewritten outside the classes it was replaced in)
+    unamb = {n: next(iter(os_)) for n, os_ in glob.items() if len(os_) == 1 and n not in getattr(rn, 'ref_names', ())}
     for m, tree in cur_trees.items():
         for st in tree.body:
             if isinstance(st, ast.ClassDef):
@@ -409,3 +411,108 @@ def apply(cur_trees, rn):
                     if any(kw.arg in [a.arg for a in d.args.posonlyargs + d.args.args + d.args.kwonlyargs] for d in defs.get(name, [])):
                         continue
                     kw.arg = next(iter(olds))
+
+
+def _scalar_literal(v):
+    if isinstance(v, ast.Constant) and isinstance(v.value, (str, int, float, bool, bytes, type(None))):
+        return True
+    if isinstance(v, ast.UnaryOp) and isinstance(v.op, ast.USub) and isinstance(v.operand, ast.Constant) \
+            and isinstance(v.operand.value, (int, float)):
+        return True
+    if isinstance(v, ast.Tuple):
+        return all(_scalar_literal(x) for x in v.elts)
+    return False
+
+
+class _Inline(ast.NodeTransformer):
+    def __init__(self, values):
+        self.values = values
+        self.shadow = [set()]
+
+    def _fn(self, node):
+        bound = {a.arg for a in node.args.posonlyargs + node.args.args + node.args.kwonlyargs}
+        if node.args.vararg:
+            bound.add(node.args.vararg.arg)
+        if node.args.kwarg:
+            bound.add(node.args.kwarg.arg)
+        for n in ast.walk(node):
+            if isinstance(n, ast.Name) and isinstance(n.ctx, (ast.Store, ast.Del)):
+                bound.add(n.id)
+        self.shadow.append(self.shadow[-1] | bound)
+        self.generic_visit(node)
+        self.shadow.pop()
+        return node
+
+    visit_FunctionDef = _fn
+    visit_AsyncFunctionDef = _fn
+    visit_Lambda = _fn
+
+    def visit_Name(self, n):
+        if isinstance(n.ctx, ast.Load) and n.id in self.values and n.id not in self.shadow[-1]:
+            import copy
+            new = copy.deepcopy(self.values[n.id])
+            for x in ast.walk(new):
+                ast.copy_location(x, n)
+            new._was_name = n.id
+            return new
+        return n
+
+
+def inline_new_constants(cur_trees, pkg="shexer"):
+    """Literal extraction: a module-level name that the reference does not know anywhere, bound once to a scalar literal (or a
+    tuple of them), is replaced by its value at every use - in its module and in modules that import it.  The rules then see the
+    literal the reference had.  Returns the list of inlined names."""
+    ref_trees = _load_reference(pkg)
+    if ref_trees is None:
+        return []
+    ref_names = set()
+    for t in ref_trees.values():
+        for n in ast.walk(t):
+            if isinstance(n, ast.Name):
+                ref_names.add(n.id)
+            elif isinstance(n, ast.alias):
+                ref_names.add(n.asname or n.name)
+    done = []
+    per_module = {}
+    for m, tree in cur_trees.items():
+        count = Counter()
+        globs = set()
+        for n in ast.walk(tree):
+            if isinstance(n, ast.Global):
+                globs.update(n.names)
+        for st in tree.body:
+            if isinstance(st, ast.Assign):
+                for t in st.targets:
+                    for x in ast.walk(t):
+                        if isinstance(x, ast.Name):
+                            count[x.id] += 1
+        vals = {}
+        for st in tree.body:
+            if isinstance(st, ast.Assign) and len(st.targets) == 1 and isinstance(st.targets[0], ast.Name):
+                name = st.targets[0].id
+                if name not in ref_names and count[name] == 1 and name not in globs and _scalar_literal(st.value):
+                    vals[name] = st.value
+        if vals:
+            per_module[m] = vals
+    for m, vals in per_module.items():
+        tree = cur_trees[m]
+        keep = [st for st in tree.body]
+        tr = _Inline(vals)
+        for i, st in enumerate(tree.body):
+            if isinstance(st, ast.Assign) and len(st.targets) == 1 and isinstance(st.targets[0], ast.Name) and st.targets[0].id in vals:
+                continue
+            tree.body[i] = tr.visit(st)
+        done += ["%s:%s" % (m, k) for k in sorted(vals)]
+    for m2, tree2 in cur_trees.items():
+        imported = {}
+        for st in tree2.body:
+            if isinstance(st, ast.ImportFrom) and st.module in per_module:
+                for al in st.names:
+                    if al.name in per_module[st.module]:
+                        imported[al.asname or al.name] = per_module[st.module][al.name]
+        if imported:
+            tr = _Inline(imported)
+            for i, st in enumerate(tree2.body):
+                if not isinstance(st, (ast.Import, ast.ImportFrom)):
+                    tree2.body[i] = tr.visit(st)
+    return done
